@@ -37,4 +37,11 @@ def r06_decode(ctx):
     ctx.borrow(c01.r01_3, 'R06.6')
 
 
-RULES = [('R06.6', r06_decode), ('R06-transitions', r06_transitions), ('R06.5', r06_parser)]
+def r06_queue_identity(ctx):
+    """The recognised messages go into the queue the parser was made with: ports keep a reference to that very deque, so the
+    fields of parser and tokenizer are bound in __init__ only and filled in place afterwards (shared with C05 R05.3)."""
+    from . import c05
+    ctx.borrow(c05.r05_3, 'R06.7')
+
+
+RULES = [('R06.7', r06_queue_identity), ('R06.6', r06_decode), ('R06-transitions', r06_transitions), ('R06.5', r06_parser)]
